@@ -21,7 +21,10 @@ def run(tier, seed):
              # plus: the same charts reached through an editing history (placeholders queried, removed, names
              # re-used under other parents) - a statechart is well-formed however it was built
              ([(2, 5, 1)], {'schemes': ('asc',), 'decls': ('rebuilt',)}),
-             ([(4, 6, 1)], {'schemes': ('asc',), 'decls': ('moved',)})]
+             ([(4, 6, 1)], {'schemes': ('asc',), 'decls': ('moved',)}),
+             # plus: a listener that reads configuration / time / final on every meta-event, i.e. in the middle of
+             # the steps: looking must not change what the interpreter reports afterwards
+             ([(2, 5, 1)], {'schemes': ('asc',), 'decls': ('observed',)})]
     return schemes.run('C02', tier, seed, PLAN[tier], ['legal'], {'legal', 'stable', 'final'},
                        RULE, ASSUME, extra_plans=extra)
 
